@@ -170,6 +170,8 @@ func prepRaw(c *Case, r *rig, rnd *rand.Rand) *prepared {
 		}
 	case "padded":
 		payload = padField(rnd, r.sample(rnd, code), 2000+rnd.Intn(48000))
+	case "mutated":
+		payload = mutate(rnd, r.sample(rnd, code))
 	case "confused":
 		other := code%20 + 1
 		if other == code {
@@ -186,6 +188,40 @@ func prepRaw(c *Case, r *rig, rnd *rand.Rand) *prepared {
 	}
 	raw := protocol.VerifLenPrefixed(frame)
 	return &prepared{frame: int64(len(raw)), exec: handleExec(r, raw, nil), shared: true}
+}
+
+// mutate applies one to four byte-level mutations to a well-formed payload.
+func mutate(rnd *rand.Rand, v []byte) []byte {
+	b := append([]byte(nil), v...)
+	for n := 1 + rnd.Intn(4); n > 0 && len(b) > 0; n-- {
+		i := rnd.Intn(len(b))
+		switch rnd.Intn(7) {
+		case 0:
+			b[i] ^= 1 << uint(rnd.Intn(8))
+		case 1:
+			b[i] = []byte{0, 0x7f, 0x80, 0xff}[rnd.Intn(4)]
+		case 2: // drop a run
+			j := i + 1 + rnd.Intn(8)
+			if j > len(b) {
+				j = len(b)
+			}
+			b = append(b[:i], b[j:]...)
+		case 3: // repeat a run
+			j := i + 1 + rnd.Intn(16)
+			if j > len(b) {
+				j = len(b)
+			}
+			run := append([]byte(nil), b[i:j]...)
+			b = append(b[:j], append(run, b[j:]...)...)
+		case 4: // a length / varint byte grows
+			b[i] |= 0x80
+		case 5: // insert random bytes
+			b = append(b[:i], append(rbytes(rnd, 1+rnd.Intn(6)), b[i:]...)...)
+		case 6:
+			b[i] = byte(rnd.Intn(256))
+		}
+	}
+	return b
 }
 
 // sample returns a well-formed payload of a code (the all-valid point of its lattice).
@@ -373,6 +409,8 @@ func prepMsg(c *Case, r *rig, rnd *rand.Rand) *prepared {
 				syncErr = r.fp.VerifAddNewFlipSync(f)
 			}
 			err := r.peer.HandleStream(raw)
+			// the write loop works on what handle() queued while this case is still the one in flight
+			r.fp.VerifWaitIdle(5 * time.Second)
 			if v, why := classify(err); v != "" {
 				return v, why
 			}
@@ -687,6 +725,9 @@ func (r *rig) msgFlip(rnd *rand.Rand, c *Case) ([]byte, *types.Flip) {
 			typ = 99
 		}
 		tx := &types.Transaction{AccountNonce: r.nextNonce(k), Epoch: r.n.App.State.Epoch(), Type: typ, MaxFee: dna(100)}
+		if c.s("sender") == "unfunded" {
+			tx.MaxFee = nil // a sender without funds offers no fee (the minimum fee of several types is zero)
+		}
 		if c.s("to") == "known" {
 			a := r.addr(kPool)
 			tx.To = &a
